@@ -267,11 +267,11 @@ Definition dents_eqb (a b : list dent) : bool :=
   (length a =? length b)%nat &&
   forallb (fun p => (fst (fst p) =? fst (snd p)) && (snd (fst p) =? snd (snd p))) (combine a b).
 
-(* a pointer-valued tag (when present) is non-null and maps, with its whole table,
-   to a file offset behind the ELF header and inside the file *)
+(* a pointer-valued tag (when present) is non-null and maps, with its whole table (of
+   non-negative size), to a file offset behind the ELF header and inside the file *)
 Definition ptr_ok (is64 : bool) (img : list Z) (ps : list phdr) (ptr len : Z) : option Z :=
   match addr_to_off ps ptr len with
-  | Some off => if negb (ptr =? 0) && (ehdr_size is64 <=? off) && (off + len <=? zlen img)
+  | Some off => if negb (ptr =? 0) && (0 <=? len) && (ehdr_size is64 <=? off) && (off + len <=? zlen img)
                 then Some off else None
   | None => None
   end.
